@@ -353,7 +353,7 @@ class GroupCoordinator:
                 if not err:
                     g.offsets[(t["topic"], p["partition"])] = (p["offset"], p.get("metadata") or "")
             topics.append({"topic": t["topic"], "partitions": parts})
-        self.c.ev("offset_commit", group=g.gid, member=mid, generation=gen, error=err,
+        self.c.ev("offset_commit", group=g.gid, member=mid, generation=gen, error=err, client=info.get("client"),
                   offsets=[(t["topic"], p["partition"], p["offset"]) for t in obj["topics"] for p in t["partitions"]])
         if not err and mid in g.members:
             self._arm(g, mid)
